@@ -376,6 +376,9 @@ class NewestFile(SVal):
     def py_getitem(self, cx, p):
         return WNode(p.t if isinstance(p, SStr) else z3.StringVal(p))
 
+    def meth_move(self, cx, src, dst):
+        cx.effect("h5move", src.t if isinstance(src, SStr) else z3.StringVal(src), dst.t if isinstance(dst, SStr) else z3.StringVal(dst))
+
     def meth_create_group(self, cx, p):
         pt = p.t if isinstance(p, SStr) else z3.StringVal(p)
         cx.effect("h5mkgrp", pt)
@@ -566,10 +569,171 @@ def add_writers(reg):
         reg.method_bindings[(c, "_abs_path")] = lambda cx, o, p: SStr(abs_path_term(o, p.t if isinstance(p, SStr) else z3.StringVal(p)))
     reg.method_bindings[("IH5Group", "_node_seq")] = lambda cx, o, p: NodeSeq(p.t)
     reg.attr_bindings[("IH5Group", "_record")] = lambda cx, o: OpaqueVal("record")
-    specs = [GroupDelitem(), AttrDelitem(), AttrSetitem(), GroupCreateGroup()]
+    specs = [GroupDelitem(), AttrDelitem(), AttrSetitem(), GroupCreateGroup(), IsDelMark(), NodeIsDelMark()]
     for s in specs:
         reg.add(s)
     return specs
+
+
+# ------------------------------------------------------------------------------------------------
+# what counts as a deletion marker (C01, C09, C17): only np.void(b"\x7f"), never user data that merely has the same byte
+
+I_ = z3.IntSort()
+NV = z3.DeclareSort("NumpyValue")
+NV_IS_ARRAY = z3.Function("np_is_ndarray", NV, B)
+NV_NDIM = z3.Function("np_ndim", NV, I_)
+NV_ITEM = z3.Function("np_item_of_0d_array", NV, NV)  # arr[()] of a 0-dim array: the scalar
+NV_IS_VOID = z3.Function("np_is_void_scalar", NV, B)  # isinstance(v, np.void)
+NV_BYTES = z3.Function("np_tobytes", NV, S)
+NV_SCALAR_SHAPE = z3.Function("np_shape_is_scalar", NV, B)
+NV_ITEMSIZE = z3.Function("np_itemsize", NV, I_)
+DS_VALUE = z3.Function("h5_dataset_value", NV, NV)  # node[()] of an h5py dataset (keyed by an id of the dataset)
+DEL_BYTES = z3.StringVal("\x7f")
+
+T_NUMPY = "T8 numpy/h5py value protocol: isinstance(v, np.ndarray/np.void), v.ndim, arr[()] of a 0-d array is its scalar with the same bytes, v.tobytes(); reading a dataset gives its stored value; np.void scalars are not ndarrays"
+
+
+def is_marker_value(v):
+    """specification: the value is np.void(b'\\x7f'), possibly wrapped as a 0-dim array"""
+    item = z3.If(z3.And(NV_IS_ARRAY(v), NV_NDIM(v) == 0), NV_ITEM(v), v)
+    return z3.And(NV_IS_VOID(item), NV_BYTES(item) == DEL_BYTES)
+
+
+class NumVal(SVal):
+    def __init__(self, t):
+        self.t = t
+
+    def py_isinstance(self, cx, c):
+        if c == "ndarray":
+            return NV_IS_ARRAY(self.t)
+        if c == "void":
+            return NV_IS_VOID(self.t)
+        if c in ("H5Dataset",):
+            return False
+        raise Unsupported("isinstance of a numpy value with " + str(c))
+
+    def py_getattr(self, cx, name):
+        if name == "ndim":
+            return SInt(NV_NDIM(self.t))
+        if name == "shape":
+            return ShapeVal(self.t)
+        if name == "dtype":
+            return DTypeVal(self.t)
+        raise Unsupported("numpy attribute " + name)
+
+    def py_getitem(self, cx, idx):
+        if idx != ():
+            raise Unsupported("numpy indexing other than [()]")
+        return NumVal(NV_ITEM(self.t))
+
+    def meth_tobytes(self, cx):
+        return SStr(NV_BYTES(self.t))
+
+
+class ShapeVal(SVal):
+    def __init__(self, t):
+        self.t = t
+
+    def py_eq(self, cx, o):
+        if o == ():
+            return NV_SCALAR_SHAPE(self.t)
+        raise Unsupported("shape comparison")
+
+
+class DTypeVal(SVal):
+    def __init__(self, t):
+        self.t = t
+
+    def py_getattr(self, cx, name):
+        if name == "itemsize":
+            return SInt(NV_ITEMSIZE(self.t))
+        raise Unsupported("dtype." + name)
+
+
+class DatasetVal(NumVal):
+    """an h5py.Dataset node: reading it gives the stored value"""
+
+    def py_isinstance(self, cx, c):
+        if c == "H5Dataset":
+            return True
+        return False
+
+    def py_getitem(self, cx, idx):
+        if idx != ():
+            raise Unsupported("dataset read other than [()]")
+        return NumVal(DS_VALUE(self.t))
+
+    def py_getattr(self, cx, name):
+        if name == "shape":
+            return ShapeVal(DS_VALUE(self.t))
+        if name == "dtype":
+            return DTypeVal(DS_VALUE(self.t))
+        raise Unsupported("dataset attribute " + name)
+
+
+class NpClasses(SVal):
+    def py_getattr(self, cx, name):
+        if name in ("ndarray", "void"):
+            return SClass(name)
+        raise Unsupported(f"np.{name}")
+
+
+class DelValueConst(SVal):
+    def meth_tobytes(self, cx):
+        return SStr(DEL_BYTES)
+
+
+def _axioms(cx):
+    v = z3.Const("nv_ax", NV)
+    cx.assume(z3.ForAll([v], z3.Implies(NV_IS_VOID(v), z3.Not(NV_IS_ARRAY(v)))))  # a void scalar is not an ndarray
+    cx.assume(z3.ForAll([v], z3.Implies(z3.And(NV_IS_ARRAY(v), NV_NDIM(v) == 0), z3.Not(NV_IS_ARRAY(NV_ITEM(v))))))  # the item of a 0-d array is a scalar
+
+
+class IsDelMark(FnSpec):
+    file = "ih5/overlay.py"
+    qual = "_is_del_mark"
+    props = ("C01", "C09", "C17")
+
+    def init(self):
+        self.bindings["np"] = NpClasses()
+        self.bindings["DEL_VALUE"] = DelValueConst()
+
+    def setup(self, cx):
+        _axioms(cx)
+        return A(val=NumVal(z3.Const("val", NV)))
+
+    def result(self, cx, a):
+        return SBool(is_marker_value(a.val.t))
+
+    pure = True
+
+    def ensures(self, cx, a, res):
+        from .c16 import is_bool_eq
+
+        return [("marker-iff-void-0x7f", is_bool_eq(res, is_marker_value(a.val.t)), "a value is a deletion marker exactly if it is np.void(b'\\x7f') (also as 0-dim array); user data with the same byte (uint8 127, b'\\x7f' strings, ...) never is")]
+
+
+class NodeIsDelMark(FnSpec):
+    file = "ih5/overlay.py"
+    qual = "_node_is_del_mark"
+    props = ("C01", "C09", "C17")
+
+    def init(self):
+        self.bindings["np"] = NpClasses()
+        self.bindings["h5py"] = H5pyMod()
+        self.bindings["DEL_VALUE"] = DelValueConst()
+
+    def setup(self, cx):
+        _axioms(cx)
+        t = z3.Const("node", NV)
+        node = DatasetVal(t) if cx.choose(2) == 0 else NumVal(t)
+        return A(node=node)
+
+    def ensures(self, cx, a, res):
+        from .c16 import is_bool_eq
+
+        v = DS_VALUE(a.node.t) if isinstance(a.node, DatasetVal) else a.node.t
+        return [("marker-iff-stored-value-is-void-0x7f", is_bool_eq(res, is_marker_value(v)), "a dataset (or attribute value) marks a deletion exactly if its stored value is np.void(b'\\x7f'): user data is never mistaken for a marker and thus never vanishes from the view")]
 
 
 # ------------------------------------------------------------------------------------------------
@@ -767,6 +931,9 @@ class GroupClass(SVal):
 STRIP_SLASH = z3.Function("str_strip_47", S, S)  # s.strip("/")  (same opaque function the engine uses)
 
 
+VISIBLE_ABS = z3.Function("visible_in_view_at_absolute_path", S, B)
+
+
 class ViewNode(SVal):
     """a node of the overlay view at an absolute path"""
 
@@ -778,6 +945,21 @@ class ViewNode(SVal):
 
     def attr_name(self, cx):
         return SStr(self.path_t)
+
+    def py_getitem(self, cx, key):
+        """lookup below this view node (h5py path rules: absolute paths from the root, relative ones from here)"""
+        kt = key.t if isinstance(key, SStr) else z3.StringVal(key)
+        g = self.path_t
+        p = z3.If(z3.PrefixOf(z3.StringVal("/"), kt), kt, z3.If(g == z3.StringVal("/"), z3.Concat(z3.StringVal("/"), kt), z3.Concat(g, z3.StringVal("/"), kt)))
+        if not cx.decide(VISIBLE_ABS(p)):
+            cx.py_raise("KeyError", "missing")
+        return ViewNode(p)
+
+    def attr__cidx(self, cx):
+        c = getattr(self, "cidx_t", None)
+        if c is None:
+            raise Unsupported("container index of this view node")
+        return SInt(c)
 
 
 class GroupCopy(Writer):
@@ -817,7 +999,7 @@ class GroupMove(Writer):
         return {"Exception": z3.BoolVal(True)}
 
     def ensures(self, cx, a, res):
-        calls = [e for e in cx.fx if e[0] in ("copy-m", "del-m")]
+        calls = list(cx.fx)
         ok = len(calls) == 2 and calls[0][0] == "copy-m" and calls[1][0] == "del-m"
         out = [("copy-then-delete", z3.BoolVal(ok), "move = copy to the destination, then delete the source")]
         if ok:
@@ -832,9 +1014,13 @@ def add_copy_move(reg):
             return ViewNode(z3.StringVal("/"), root=True)
         if not cx.decide(VISIBLE(kt)):
             cx.py_raise("KeyError", "missing")
-        return ViewNode(abs_path_term(node, kt))
+        v = ViewNode(abs_path_term(node, kt))
+        v.cidx_t = FOUND_IDX(kt)
+        return v
 
     reg.method_bindings[("IH5Group", "__getitem__")] = getitem
+    reg.method_bindings[("IH5GroupForMove", "__getitem__")] = getitem
+    reg.method_bindings[("IH5GroupForMove", "__contains__")] = lambda cx, o, k: SBool(VISIBLE(k.t if isinstance(k, SStr) else z3.StringVal(k)))
     specs = [GroupCopy(), GroupMove()]
     reg.add(specs[0])
     reg.add(specs[1])
@@ -848,6 +1034,9 @@ def add_copy_move(reg):
 
     specs[1].setup = setup
     reg.set_class_home("IH5GroupForMove", "ih5/overlay.py", "IH5Group")
+    reg.attr_bindings[("IH5GroupForMove", "_files")] = lambda cx, o: o.wfiles
+    reg.attr_bindings[("IH5GroupForMove", "_last_idx")] = lambda cx, o: SInt(o.nfiles - 1)
+    reg.method_bindings[("IH5GroupForMove", "_abs_path")] = lambda cx, o, p: SStr(abs_path_term(o, p.t if isinstance(p, SStr) else z3.StringVal(p)))
     reg.method_bindings[("IH5GroupForMove", "copy")] = lambda cx, o, s, d, **kw: cx.effect("copy-m", s, d)
     reg.method_bindings[("IH5GroupForMove", "__delitem__")] = lambda cx, o, k: cx.effect("del-m", k)
     return specs
